@@ -58,8 +58,10 @@ Qed.
    object.  Full statement, kept as a goal:
      tc_roundtrip : forall tc rest, WF tc ->
        tsk_load_bytes false false (tsk_dump_bytes tc ++ rest) = Ok (tc_normalise tc, rest)
-   Missing for it: correctness of the bsearch lookup on the sorted key list and the schema-driven
-   reconstruction of the columns (read_cols / read_ragged on the items written by dump_table).
+   Proved towards it: this byte-level round trip, the lookup (SearchProofs.kas_lookup_after_roundtrip:
+   kastore_get finds exactly what was put) and the offset narrowing (TskProofs.offsets_narrow_widen).
+   Missing: the schema-driven reconstruction of the columns (read_cols / read_ragged / load_table on
+   the items written by dump_table, generic in the regenerated schema lists).
    That step is checked on every run instead: harness/props/c05.py evaluates
    [tcoll_eqb (load (dump tc)) (tc_normalise tc)] and [dump tc = the file tskit wrote] in Coq for
    every generated table collection. *)
